@@ -24,8 +24,8 @@ pub fn spec() -> Spec {
             "the direction clause is not judged at vertices where the adjacent edges double back (|d0+d1| < 1e-6)",
         ],
         streams: vec![
-            Stream { name: "curve2", quick: 6000, thorough: 150_000, run: run2 },
-            Stream { name: "curve3", quick: 4000, thorough: 100_000, run: run3 },
+            Stream { name: "curve2", quick: 40_000, thorough: 1_500_000, run: run2 },
+            Stream { name: "curve3", quick: 25_000, thorough: 1_000_000, run: run3 },
         ],
         required: vec![
             ("Curve2::at_length :: some-iff-in-range", 1000),
